@@ -127,3 +127,18 @@ def make_local_base():
     """an instance of a class defined inside a function (its qualified name contains `<locals>`: it cannot be found again by
     module + qualified name) whose simple name coincides with the module-level `Base`"""
     return _LOCAL_BASE()
+
+
+class Cursor:
+    """an ordinary class that happens to implement the iterator protocol (a database cursor, a tokenizer): NOT a generator"""
+    def __init__(self):
+        self.left = 2
+
+    def __iter__(self):
+        return self
+
+    def __next__(self):
+        if not self.left:
+            raise StopIteration
+        self.left -= 1
+        return self.left
